@@ -13,25 +13,44 @@ Theorem C19_all_writers_guarded : sb_all_writers_guarded sb_cur_facts = true.
 Proof. exact (eq_refl true <: sb_all_writers_guarded sb_cur_facts = true). Qed.
 Print Assumptions C19_all_writers_guarded.
 
-(* every function registered side-effect-free is one the model classifies pure or higher-order *)
+(* PURITY IS A CHECKED FACT.  Every function registered side-effect-free is established pure by the mutation-capability
+   analysis of its C++ body (tools/c19_purity.py, regenerated on every run: all definitions of the registered callee
+   located; every container/object reachable from a parameter, from `this` / the current frame or through an alias local
+   is used through non-modifying operations only or replaced by a clone first; no in-place std::sort/unique, Resize, Set,
+   Add, Remove, Clear, std::back_inserter / CopyTo into pre-existing state, write through ->, unknown callee).  A function
+   the analysis flags makes this theorem fail. *)
 Theorem C19_safe_funcs_harmless : sb_safe_funcs_harmless sb_cur_facts = true.
 Proof. exact (eq_refl true <: sb_safe_funcs_harmless sb_cur_facts = true). Qed.
 Print Assumptions C19_safe_funcs_harmless.
 
-(* source-derived cross-check of that classification: the C++ body of at least 80 of the functions registered
-   side-effect-free is located, and none of the located bodies calls a mutator (Set/Add/Remove/Clear/Freeze/SetField/
-   ModifyAttribute/Register/...) on an object it did not create or touches files, processes or registries; the same
-   scan flags every container/object mutator the model knows *)
+(* sanity of that analysis on the current tree: every definition of every function registered side-effect-free is located,
+   and the same analysis flags all 15 container/object mutators the model knows (Array#add/set/remove/clear/freeze, ...) *)
 Theorem C19_safe_bodies_clean :
-  sb_safe_bodies_clean sb_cur_facts sb_cur_body_scan 80 = true /\
-  sb_scan_sees_mutators sb_cur_body_scan sb_container_mutators = true.
+  sb_safe_bodies_located sb_cur_facts sb_cur_purity_raw = true /\
+  sb_analysis_sees_mutators sb_cur_purity_raw sb_container_mutators = true.
 Proof.
-  exact (conj (eq_refl true <: sb_safe_bodies_clean sb_cur_facts sb_cur_body_scan 80 = true)
-              (eq_refl true <: sb_scan_sees_mutators sb_cur_body_scan sb_container_mutators = true)).
+  exact (conj (eq_refl true <: sb_safe_bodies_located sb_cur_facts sb_cur_purity_raw = true)
+              (eq_refl true <: sb_analysis_sees_mutators sb_cur_purity_raw sb_container_mutators = true)).
 Qed.
 Print Assumptions C19_safe_bodies_clean.
 
-(* sort/map/reduce/filter/any/all test `Sandboxed && !IsSideEffectFree()` in front of the first Invoke *)
+(* the analysis and the reviewed EXPECTED tables agree (sb_pure_names / sb_higher_names are no longer used by the
+   semantics): every side-effect-free function is listed, the callback-taking ones are exactly sort/map/reduce/filter/
+   any/all, no listed function is flagged; the analysis' self-test passed (19 mutating idioms rejected, the pure idioms
+   accepted); the READ methods of Array/Dictionary/Namespace/Reference/Object it relies on are declared const (every
+   overload) and their own bodies are clean or on the named trusted list *)
+Theorem C19_purity_analysis :
+  sb_purity_as_expected sb_cur_facts = true /\ sb_cur_purity_selftest = true /\
+  sb_read_methods_ok sb_cur_read_methods = true.
+Proof.
+  exact (conj (eq_refl true <: sb_purity_as_expected sb_cur_facts = true)
+        (conj (eq_refl true <: sb_cur_purity_selftest = true)
+              (eq_refl true <: sb_read_methods_ok sb_cur_read_methods = true))).
+Qed.
+Print Assumptions C19_purity_analysis.
+
+(* every side-effect-free native whose body invokes a Function argument (sort/map/reduce/filter/any/all) tests
+   `Sandboxed && !IsSideEffectFree()` in front of the first Invoke *)
 Theorem C19_callbacks_guarded : sb_callbacks_guarded sb_cur_facts = true.
 Proof. exact (eq_refl true <: sb_callbacks_guarded sb_cur_facts = true). Qed.
 Print Assumptions C19_callbacks_guarded.
@@ -102,6 +121,68 @@ Theorem C19_no_write : forall fuel fr e s,
   sb_protected (snd (sb_eval sb_cur_facts fuel fr e s)) = sb_protected s.
 Proof. exact (fun fuel fr e s => sb_no_write sb_cur_facts fuel fr e s C19_premises_hold). Qed.
 Print Assumptions C19_no_write.
+
+(* NATIVES.  Registered side-effect-free => established pure by the regenerated analysis ... *)
+Theorem C19_safe_natives_pure : forall nm,
+  sb_fun_safe sb_cur_facts (SbNative nm) = true -> sb_native_pure sb_cur_facts nm = true.
+Proof. exact (fun nm => sb_safe_native_is_pure sb_cur_facts nm C19_premises_hold). Qed.
+Print Assumptions C19_safe_natives_pure.
+
+(* ... a native established pure (no callback) returns a value or raises an error and leaves every shared cell reachable
+   from its receiver and arguments unchanged - as well as the rest of the shared heap, the external component, the local
+   heap and the hidden-read log; for every store, receiver, argument list and choice stream *)
+Theorem C19_pure_native : forall fuel fr nm self args s,
+  sb_native_pure sb_cur_facts nm = true -> sb_native_higher sb_cur_facts nm = false -> (nm =? sb_n_ref_get)%N = false ->
+  let r := sb_run sb_cur_facts (S fuel) (SbRqInvoke fr (SbNative nm) self args) s in
+  ((exists v, fst r = SbROk v) \/ fst r = SbRErr SbEOther) /\
+  (forall i, In i (sb_reach s (self :: args)) -> nth i (sbs_shared (snd r)) [] = nth i (sbs_shared s) []) /\
+  sbs_shared (snd r) = sbs_shared s /\ sbs_extern (snd r) = sbs_extern s /\ sbs_local (snd r) = sbs_local s /\
+  sbs_reads (snd r) = sbs_reads s.
+Proof. exact (sb_pure_native sb_cur_facts). Qed.
+Print Assumptions C19_pure_native.
+
+(* HIDDEN READS THROUGH NATIVES.  Every accessor fetching a field of a reflected object that a side-effect-free native can
+   reach (its own body and the bodies of its callees, resolved by name in lib/base) is GetFieldByName(.., sandboxed = true, ..), which tests
+   no_user_view; Reference#get (= Reference::Get, modelled as the same checked read as `*ref`) is refused on a reference to
+   a no_user_view field such as ApiUser.password / ApiListener.ticket_salt and fetches nothing *)
+Theorem C19_native_read_paths :
+  sb_native_reads_checked sb_cur_native_reflect = true /\
+  forall fuel fr ty o idx args s, sb_is_hidden sb_cur_facts ty idx = true ->
+    let r := sb_run sb_cur_facts (S fuel) (SbRqInvoke fr (SbNative sb_n_ref_get) (SbVRef ty o idx) args) s in
+    fst r = SbRErr SbESandbox /\ sbs_reads (snd r) = sbs_reads s /\ sb_protected (snd r) = sb_protected s.
+Proof.
+  exact (conj (eq_refl true <: sb_native_reads_checked sb_cur_native_reflect = true)
+          (fun fuel fr ty o idx args s =>
+             sb_reference_get_refused sb_cur_facts fuel fr ty o idx args s
+               (eq_refl SbPure <: sb_class_of sb_cur_facts sb_n_ref_get = SbPure)
+               (eq_refl true <: sbf_ref_get_checked sb_cur_facts = true)
+               (eq_refl true <: sbf_getfield_checked sb_cur_facts = true))).
+Qed.
+Print Assumptions C19_native_read_paths.
+
+(* ... and every native registered side-effect-free, the callback-taking ones included, leaves every cell reachable from
+   receiver and arguments and the whole protected component unchanged when invoked below a sandboxed stack top *)
+Theorem C19_safe_native_preserves_reachable : forall fuel fr nm self args s,
+  sbfr_top fr = true -> sb_fun_safe sb_cur_facts (SbNative nm) = true ->
+  let s' := snd (sb_run sb_cur_facts fuel (SbRqInvoke fr (SbNative nm) self args) s) in
+  (forall i, In i (sb_reach s (self :: args)) -> nth i (sbs_shared s') [] = nth i (sbs_shared s) []) /\
+  sb_protected s' = sb_protected s.
+Proof. exact (fun fuel fr nm self args s => sb_safe_native_preserves sb_cur_facts fuel fr nm self args s C19_premises_hold). Qed.
+Print Assumptions C19_safe_native_preserves_reachable.
+
+(* sensitivity: with the purity fact of System#intersection false (what the analysis reports when the ShallowClone of its
+   first argument is dropped) the model lets it write what its arguments reach: `intersection(SbArr, [ 1 ])` in a sandboxed
+   frame changes the cell of the global array, and C19_safe_funcs_harmless is false for those facts; with the purity fact
+   true the same program changes nothing *)
+Theorem C19_impure_native_refuted :
+  sb_reach sb_isect_st [SbVObj sb_t_Array (SbShared 1)] = [1%nat] /\
+  nth 1 (sbs_shared (snd (sb_eval (sb_facts_impure sb_cur_facts sb_n_intersection) 6 sb_filter_frame sb_isect_prog sb_isect_st))) []
+    <> nth 1 (sbs_shared sb_isect_st) [] /\
+  sb_safe_funcs_harmless (sb_facts_impure sb_cur_facts sb_n_intersection) = false /\
+  sb_protected (snd (sb_eval (sb_facts_purity sb_cur_facts sb_n_intersection true) 6 sb_filter_frame sb_isect_prog sb_isect_st))
+    = sb_protected sb_isect_st.
+Proof. exact sb_impure_native_writes_reachable. Qed.
+Print Assumptions C19_impure_native_refuted.
 
 (* only functions registered side-effect-free are invoked, also as callbacks of sort/map/reduce/filter/any/all *)
 Theorem C19_calls : forall fuel fr e s,
